@@ -117,9 +117,6 @@ Theorem guarded_total_sound_refuted :
   (* DivFFG 7 2 = 3.5, Div 7 2 = 3 *)
   (gd_arith_ffg no_heap ADiv (v_int 7) (v_int 2) = ROk W_3_5 /\
    g_arith no_heap ADiv (v_int 7) (v_int 2) = ROk (v_int 3)) /\
-  (* LtIIG null 1 = false, Lt null 1 = TypeError *)
-  (gd_cmp_iig no_heap CLt v_null (v_int 1) = ROk (v_bool false) /\
-   g_cmp no_heap CLt v_null (v_int 1) = RErr ETypeError) /\
   (* EqIIG NaN NaN = false, Eq NaN NaN = true *)
   (gd_cmp_iig no_heap CEq CANONICAL_NAN CANONICAL_NAN = ROk (v_bool false) /\
    g_cmp no_heap CEq CANONICAL_NAN CANONICAL_NAN = ROk (v_bool true)).
@@ -134,22 +131,23 @@ Theorem guarded_sound_arith_ffg : forall hv o a b,
   a < W64 -> b < W64 -> is_int a && is_int b = false -> gd_arith_ffg hv o a b = g_arith hv o a b.
 Proof. exact guarded_arith_ffg_sound. Qed.
 
-Theorem guarded_sound_ord_iig : forall hv o a b,
-  is_ord o = true -> a < W64 -> b < W64 -> is_num a = true -> is_num b = true ->
-  gd_cmp_iig hv o a b = g_cmp hv o a b.
-Proof. exact guarded_ord_iig_sound. Qed.
+(* since fix 5bb247f the guarded orderings fall back to the generic comparison on non-numbers:
+   LtIIG..GeIIG equal the generic op on EVERY pair of words *)
+Theorem guarded_total_sound_ord_iig : forall hv o a b,
+  is_ord o = true -> a < W64 -> b < W64 -> gd_cmp_iig hv o a b = g_cmp hv o a b.
+Proof. exact guarded_ord_iig_total. Qed.
 
 Theorem guarded_sound_ord_ffg : forall hv o a b,
-  is_ord o = true -> a < W64 -> b < W64 -> is_num a = true -> is_num b = true ->
-  is_int a && is_int b = false -> gd_cmp_ffg hv o a b = g_cmp hv o a b.
+  is_ord o = true -> a < W64 -> b < W64 -> is_int a && is_int b = false ->
+  gd_cmp_ffg hv o a b = g_cmp hv o a b.
 Proof. exact guarded_ord_ffg_sound. Qed.
 
-(* on non-numbers the guarded orderings never raise: they answer false *)
-Theorem guarded_ord_nonnumeric_is_false : forall hv o a b,
-  is_ord o = true -> a < W64 -> b < W64 -> is_num a && is_num b = false ->
-  gd_cmp_iig hv o a b = ROk (v_bool false) /\ gd_cmp_ffg hv o a b = ROk (v_bool false)
-  /\ g_cmp hv o a b = RErr ETypeError.
-Proof. exact guarded_ord_nonnum. Qed.
+(* about the OLD definition only (before 5bb247f): the guarded orderings answered false on non-numbers *)
+Theorem old_guarded_ord_nonnumeric_was_false :
+  gd_cmp_iig_old no_heap CLt v_null (v_int 1) = ROk (v_bool false) /\
+  g_cmp no_heap CLt v_null (v_int 1) = RErr ETypeError /\
+  gd_cmp_iig no_heap CLt v_null (v_int 1) = RErr ETypeError.
+Proof. exact old_guarded_ord_answered_false. Qed.
 
 Theorem guarded_sound_eq_ints : forall hv o x y,
   in48 x -> in48 y -> gd_cmp_iig hv o (v_int x) (v_int y) = g_cmp hv o (v_int x) (v_int y).
@@ -161,24 +159,25 @@ Theorem guarded_sound_eq_nonnumeric : forall hv o a b,
 Proof. exact guarded_eq_nonnum. Qed.
 
 (* ---------------------------------------------------------------- selection *)
-(* select_never_unguarded_on_uncertain: FALSE for the five shift / bitwise operators *)
-Theorem select_never_unguarded_on_uncertain_refuted : exists op l r,
-  is_certain l && is_certain r = false /\ is_unchecked_opcode (select_opcode op l r) = true.
-Proof. exact select_uncertain_refuted. Qed.
+(* select_never_unguarded_on_uncertain: TRUE at full strength since fix da40ed1 *)
+Theorem select_never_unguarded_on_uncertain : forall op l r,
+  is_certain l && is_certain r = false -> is_unchecked_opcode (select_opcode op l r) = false.
+Proof. exact select_guarded_all. Qed.
 
-(* ... true for every arithmetic / comparison operator *)
-Theorem select_never_unguarded_on_uncertain_nonbitwise : forall op l r,
-  is_bitwise op = false -> is_certain l && is_certain r = false ->
-  is_unchecked_opcode (select_opcode op l r) = false.
-Proof. exact select_guarded_nonbitwise. Qed.
-
-(* ... and for the bitwise ones the unchecked opcode is chosen exactly when both types unwrap
-   to integers, whether or not a guard was requested *)
-Theorem select_bitwise_unguarded_exactly : forall op l r,
+(* the unchecked shift / bitwise opcodes are chosen exactly for two integer types without guard *)
+Theorem select_bitwise_unchecked_exactly : forall op l r,
   is_bitwise op = true ->
   is_unchecked_opcode (select_opcode op l r) =
-  is_integer (unwrap_uncertain l) && is_integer (unwrap_uncertain r).
+  is_integer (unwrap_uncertain l) && is_integer (unwrap_uncertain r)
+  && negb (needs_guard l || needs_guard r).
 Proof. exact select_bitwise_exact. Qed.
+
+(* about the OLD definition only (before da40ed1): guarded int selection returned ShlII.. *)
+Theorem old_select_guarded_int_was_unchecked :
+  is_unchecked_opcode (select_guarded_int_opcode_old OpShl) = true /\
+  is_unchecked_opcode (select_guarded_int_opcode OpShl) = false /\
+  select_opcode OpShl (RUncertain RI64) (RUncertain RI64) = O_Shl.
+Proof. exact old_guarded_int_selection_was_unchecked. Qed.
 
 Theorem select_typed_only_for_static_int_or_float : forall op l r,
   is_unchecked_opcode (select_opcode op l r) = true ->
@@ -220,5 +219,5 @@ Proof. exact nonvacuous_c06. Qed.
 Example C06_nonvacuous_select :
   word_has_type RI64 (v_int 7) = true /\ word_has_type RI64 W_2_5 = false /\
   select_opcode OpAdd RI64 RF64 = O_AddFFG /\ select_opcode OpAdd RI64 RDynamic = O_Add /\
-  select_opcode OpShl (RUncertain RI64) RI64 = O_ShlII /\ select_opcode OpAdd (RUncertain RI64) RI64 = O_AddIIG.
+  select_opcode OpShl (RUncertain RI64) RI64 = O_Shl /\ select_opcode OpAdd (RUncertain RI64) RI64 = O_AddIIG.
 Proof. exact nonvacuous_select. Qed.
